@@ -20,6 +20,10 @@ def c03(seed):
         if rnd.random()<0.8: g.set_bounds(name,a,b); B[name]=(a,b)
     g.set_axis(x=lo[0],y=lo[1],z=lo[2])
     def pick(a,b): return rnd.choice([a,b,a-1,b+1,(a+b)/2,float('nan'),a,b])
+    # inclusive acceptance: absolute moves to every corner of the box must be accepted
+    try:
+        g.move(x=hi[0],y=hi[1],z=hi[2]); g.move(x=lo[0],y=lo[1],z=lo[2])
+    except ValueError as e: issues.append(('C03 boundary value rejected (bounds are inclusive)',seed,str(e)[:50]))
     n=len(r.lines); mpos=[Fr(lo[0]),Fr(lo[1]),Fr(lo[2])]; mrel=[False]
     for i in range(30):
         k=rnd.choice(['move','rapid','move_absolute','set_axis','dist','feed','power','tool_on','tool_off','tool_change','bed','hotend','chamber','halt_t','polyline'])
